@@ -1181,6 +1181,45 @@ fn random_profile(rng: &mut Rng, profile: u8) -> Option<Board> {
     Some(b)
 }
 
+/// a set-up in which an en-passant capture uncovers a diagonal attack THROUGH THE SQUARE OF THE CAPTURED PAWN on a cornered king
+/// (white to move; the caller mirrors colours): bishop or queen on the long diagonal, own pawn beside the pawn that has just made
+/// its double step, the enemy king in the corner behind it, random furniture around
+fn ep_discovery_setup(rng: &mut Rng) -> Option<Board> {
+    let mut g: [Option<char>; 64] = [None; 64];
+    let sq = |f: usize, r: usize| r * 8 + f;
+    // diagonal a1-h8: victim pawn on e5 (came from e7), capturer on d5 or f5, slider on a1 / b2 / c3, king on h8 (or g7 with the slider check through f6)
+    g[sq(4, 4)] = Some('p');
+    let cap_file = if rng.below(2) == 0 { 3 } else { 5 };
+    g[sq(cap_file, 4)] = Some('P');
+    let sl = [sq(0, 0), sq(1, 1), sq(2, 2)][rng.below(3) as usize];
+    g[sl] = Some(if rng.below(3) == 0 { 'Q' } else { 'B' });
+    g[sq(7, 7)] = Some('k');
+    // the king's neighbours: own men more often than not
+    for (f, r, opts) in [(6usize, 7usize, "brnq "), (7, 6, "pp b "), (6, 6, "    p")] {
+        let c = opts.chars().nth(rng.below(opts.len() as u64) as usize).unwrap_or(' ');
+        if c != ' ' && g[sq(f, r)].is_none() {
+            g[sq(f, r)] = Some(c);
+        }
+    }
+    // the white king somewhere harmless, a few more men
+    let free: Vec<usize> = (0..64).filter(|s| g[*s].is_none() && *s != sq(4, 5) && *s != sq(4, 6) && *s != sq(5, 5) && *s != sq(3, 3)).collect();
+    g[free[rng.below(free.len() as u64) as usize]] = Some('K');
+    for _ in 0..rng.below(5) {
+        let s = rng.below(64) as usize;
+        let c = ['n', 'p', 'P', 'R', 'N', 'r', 'b'][rng.below(7) as usize];
+        if g[s].is_none() && s != sq(4, 5) && s != sq(4, 6) && !((c == 'p' || c == 'P') && (s / 8 == 0 || s / 8 == 7)) {
+            g[s] = Some(c);
+        }
+    }
+    let fen = format!("{} w - e6 0 {}", super::grid_placement(&g), 2 + rng.below(40));
+    let white = Board::from_fen(&fen);
+    let b = if rng.below(2) == 0 { white } else { Board::from_fen(&super::walk::mirror_fen_pub(&fen)) };
+    if b.is_in_check(b.current_turn.opposite()) || b.get_piece_count(Kind::King(Color::White)) != 1 || b.get_piece_count(Kind::King(Color::Black)) != 1 {
+        return None;
+    }
+    Some(b)
+}
+
 fn mate_mode(rng: &mut Rng, count: usize, maxdepth: u8, shard: usize, of: usize, cache_off: bool) {
     let mut found = 0usize;
     let mut tries = 0u64;
@@ -1188,7 +1227,7 @@ fn mate_mode(rng: &mut Rng, count: usize, maxdepth: u8, shard: usize, of: usize,
     while found < count && tries < 2_000_000 {
         tries += 1;
         // a quarter each: sparse random positions, bare king vs heavy pieces, castling set-ups next to the enemy king, random play from the seeds
-        let src = rng.below(4);
+        let src = rng.below(5);
         let mut b = if src == 0 {
             match random_sparse(rng) {
                 Some(b) => b,
@@ -1201,6 +1240,12 @@ fn mate_mode(rng: &mut Rng, count: usize, maxdepth: u8, shard: usize, of: usize,
             }
         } else if src == 3 {
             match random_profile(rng, 4) {
+                Some(b) => b,
+                None => continue,
+            }
+        } else if src == 4 {
+            // en-passant captures that uncover a diagonal check through the captured pawn's square
+            match ep_discovery_setup(rng) {
                 Some(b) => b,
                 None => continue,
             }
@@ -1221,6 +1266,10 @@ fn mate_mode(rng: &mut Rng, count: usize, maxdepth: u8, shard: usize, of: usize,
             continue;
         }
         let m1 = mates_in_one(&mut b);
+        // from the en-passant set-ups keep the mates in one only when the en-passant capture is the ONLY mating move
+        if src == 4 && !m1.is_empty() && !m1.iter().all(|m| m.en_passant) {
+            continue;
+        }
         let (cat, tag) = if !m1.is_empty() {
             (0, format!("tag=m1 wit={}", m1[0].to_notation()))
         } else if let Some(w) = forced_mate_in_two(&mut b) {
